@@ -127,4 +127,6 @@ func implRes(c string) string {
 // resComparable: a duplicate-key InsertOne reports its write error through the result of the
 // callback (the transaction is committed, clean) and the API turns it into an error afterwards —
 // outside useTransaction, so outside the model.
-func resComparable(c string) bool { return c != "dup" && c != "skipped" }
+// Likewise "no documents" of a find-and-modify: the callback succeeds (nothing matched, clean
+// commit) and the SingleResult reports mongo.ErrNoDocuments afterwards.
+func resComparable(c string) bool { return c != "dup" && c != "skipped" && c != "nodoc" }
